@@ -1,5 +1,5 @@
 """Generates /verif/harness/d_net/src/gen/* from /repo's working tree."""
-import os, sys
+import os, re, sys
 sys.path.insert(0, os.path.dirname(__file__))
 from transplant import *
 
@@ -104,6 +104,16 @@ def generate():
     meta.append(m)
     out.append("}")
     write_if_changed(f"{DST}/driver_fns.rs", "\n".join(out) + "\n")
+    # the distance-to-integer glue (C11 ii): the real convert_distance_to_u256 prints the Distance with {:?}, strips
+    # "Distance(" and ")" and parses the rest; Debug of the shim Distance prints what libp2p's prints (`Distance(<decimal>)`,
+    # the decimal text of a symbolic value being a placeholder number that stands for its term), the shim parser maps the
+    # text back. One pattern-level substitution: the associated constant U256::ZERO is the function zero() of the shim type.
+    c, m = extract_items("ant-protocol/src/lib.rs", [("fn", "convert_distance_to_u256")])
+    c = re.sub(r"\bU256::ZERO\b", "U256::zero()", c)
+    meta.append(m)
+    write_if_changed(f"{DST}/distance_glue.rs",
+                     "// GENERATED from ant-protocol/src/lib.rs item -- do not edit\n"
+                     "use crate::shim::{Distance, U256};\nuse std::str::FromStr;\n\n" + c + "\n")
     # closest-peer selection items (C11 iii)
     out = ["// GENERATED from ant-networking/src/lib.rs and ant-node/src/node.rs items -- do not edit",
            "use crate::error::NetworkError;",
@@ -121,7 +131,6 @@ def generate():
     write_if_changed(f"{DST}/closest_items.rs", "\n".join(out) + "\n")
     # feature flag copied from ant-node's default features
     toml = read_repo("ant-node/Cargo.toml")
-    import re
     md = re.search(r"^default\s*=\s*\[(.*?)\]", toml, re.M | re.S)
     defaults = md.group(1) if md else ""
     encrypt_default = '"encrypt-records"' in defaults
